@@ -1034,6 +1034,11 @@ impl Checker
                 if target_alive
                 {
                     self.viol_sys("C02", d.sys, format!("delivery {id} to live system {:?} was aborted ({:?})", d.sys, reason));
+                    // C09: a command whose target is executing is postponed and runs after that execution - never dropped
+                    if d.sys.map(|s| !self.systems[s as usize].open_runs.is_empty()).unwrap_or(false)
+                    {
+                        self.viol_sys("C09", d.sys, format!("delivery {id} to the executing system {:?} was dropped ({:?}) instead of being postponed until that execution completed", d.sys, reason));
+                    }
                 }
                 else { self.rep.classes.hit("C02:abort_dead_target"); self.tree_had_incident = true; }
                 self.finish_delivery(id, DStatus::Aborted);
@@ -1159,6 +1164,10 @@ impl Checker
                 if target_alive
                 {
                     self.viol_sys("C02", d.sys, format!("delivery {id} to live system {:?} was discarded at the end of the tree", d.sys));
+                    if d.status == DStatus::Postponed
+                    {
+                        self.viol_sys("C09", d.sys, format!("delivery {id}, postponed because system {:?} was executing, was discarded instead of running when that execution completed", d.sys));
+                    }
                 }
                 self.tree_had_incident = true;
                 self.finish_delivery(id, DStatus::Discarded);
